@@ -1040,7 +1040,7 @@ def numeric_intervals_from_regex(regex: z3.ReRef) -> Maybe[List[Tuple[int, int]]
     9223372036854775807
 
     >>> numeric_intervals_from_regex(z3.Star(z3.Range("0", "9")))
-    <Some: [(-9223372036854775807, 9223372036854775807)]>
+    <Some: [(0, 9223372036854775807)]>
 
     We support concatenations of zeroes:
 
@@ -1249,7 +1249,8 @@ def numeric_intervals_from_full_range(
         z3.Z3_OP_RE_STAR,
         z3.Z3_OP_RE_PLUS,
     ] and regex.children()[0] == z3.Range("0", "9"):
-        return Some([(-sys.maxsize, sys.maxsize)])
+        # Sequences of digits (without a sign) represent non-negative numbers only.
+        return Some([(0, sys.maxsize)])
     else:
         return fallback(regex)
 
